@@ -5,7 +5,7 @@ public identifier form, UTF-8), exact string-table length, every reference at an
 strict decoding by the Lean specification reader (Spec/Wbxml.lean: tokens under their own code
 page, balanced ENDs, nothing left over) and the decoded events equal to the source document
 under the documented normalisations."""
-import re
+import re, itertools
 import os, random
 import common, corr, xmlgen, xcorr, docmp, xmlcmp, wbwalk
 from wbwalk import rd_mb
@@ -43,7 +43,7 @@ def header_checks(w, lang, version, anonymous, fields, strtbl, src=b''):
         if cs != 106:
             errs.append(f'charset {cs} instead of UTF-8 (106)')
     # (the identifier text may legitimately be in the table when the document itself carries it as content)
-    if anonymous and xmlid and xmlid in tbl and xmlid not in re.sub(rb'<!DOCTYPE[^>]*>', b'', src):
+    if anonymous and xmlid and xmlid in tbl and xmlid not in re.sub(rb'<!DOCTYPE[^>]*>', b'', xmlgen.as_utf8(src)):
         errs.append('anonymous document still contains the public-identifier string')
     if tlen and tbl[-1] != 0:
         errs.append('declared string-table length does not end at a terminator')
@@ -79,6 +79,16 @@ def run(res, args):
         if x:
             xs.append(x)
     opts = [(rng.choice([0, 1, 2, 3]), rng.choice([0, 1]), rng.choice([0, 1]), rng.choice([0, 0, 1])) for _ in xs]   # version keepws strtbl anonymous
+    # sources in other declared encodings (the header must still say UTF-8: the body is always UTF-8)
+    for x in rng.sample(docs, 12) + [g.doc() for _ in range(12)]:
+        for enc in ('ISO-8859-1', 'UTF-16', 'US-ASCII'):
+            y = xmlgen.transcode(x, enc)
+            if y is not None:
+                xs.append(y); opts.append((rng.choice([0, 1, 2, 3]), rng.choice([0, 1]), rng.choice([0, 1]), rng.choice([0, 0, 1])))
+    # documents with embedded sub-documents (nested encoders with options of their own): every tuple
+    for x in [x for x in docs if b'<DevInf' in x or b'<MgmtTree' in x]:
+        for o in itertools.product([0, 3], [0, 1], [0, 1], [0, 1]):
+            xs.append(x); opts.append(o)
     lines = [f'X2W {o[0]} {o[1]} {o[2]} {o[3]} {x.hex()}' for o, x in zip(opts, xs)]
     impl, inc = corr.run_lines(hx2w, lines, env=env)
     model = xcorr.model_with_expat(drv, er, env, lambda i: f'X2W {opts[i][0]} {opts[i][1]} {opts[i][2]} {opts[i][3]}', xs)
